@@ -13,6 +13,12 @@ THEOREMS = [
     "C13.cl_emits_after_all",
     "C13.cl_latest",
     "C13.wlf_only_primary",
+    "C13.wlf_eq_reference",
+    "C13.wlf_timeline_reference",
+    "C13.wlf_phased_only_primary",
+    "C13.static_phase_eq_plain",
+    "C13.zip_phase_eq_plain",
+    "C13.late_subscription_in_loop_closed",
     "C13.fork_join_last_values",
     "C13.fork_join_empty_short_circuit",
     "C13.amb_mirrors_first",
@@ -28,7 +34,7 @@ RULE = ("1..4 logged cold/hot sources (times on a 5-tick grid so that simultaneo
         "checked against the output computed from the source TIMELINES (other sources are subscribed before the primary); "
         "non-trivial = at least one notification reached the operator and at least one output or terminal effect was produced")
 ASSUMPTIONS = ["single-threaded / virtual-time execution: one run is one list of tagged events (C43 covers real threads)",
-               "sources do not notify synchronously inside subscribe (the static n-ary operators subscribe all sources first)"]
+               "sources that notify inside subscribe are replayed through the phased machines (unsubscribe positions inside the subscribe loop compared by time only)"]
 TRUSTED_EXTRA = ["the logging cold/hot sources of harness/props/comb_common.py as measuring instruments"]
 LEVEL_TEXT = ("Lean theorems for n sources and EVERY list of tagged events (all interleavings, conforming or not, dispose anywhere): zip's k-th output is the tuple of the k-th delivered "
 "elements and #outputs = min #delivered at every moment; zip completes exactly when a completed source has nothing buffered; combine_latest emits nothing until all sources "
@@ -41,8 +47,13 @@ LEVEL_NOTE = ("Model = RxModel/Comb.lean + RxModel/CombN.lean (zip: queues/is_co
 "level and climbs through the levels above) and its FLATTENED form (ambM: choice = first source to notify; loser disposal order k-1..0,k+1..n-1, subscription order n-1..0); "
 "amb_nested_eq_flat proves they produce identical effects for every n and every event list, and the correspondence replays half of the rx.amb cases through each). All nine design theorems are proved at full strength for n sources and every event "
 "list (cl_* need n >= 1, as the code raises otherwise); zip_kth's timing clause is 'number of outputs = min number of delivered elements at every prefix'. "
-"combine_latest's completion is not in the property text; the oracle only bounds it. Not modelled: sources notifying synchronously inside subscribe (the operators "
-"subscribe all sources first), futures. Threads are C43.")
+"combine_latest's completion is not in the property text; the oracle only bounds it. The subscribe LOOP is modelled by RxModel/CombPhase.lean (`phased`: a tick subscribes the "
+"next source; sources may notify inside their own subscribe; a source subscribed after the result terminated is closed in the same step; `phasedAmb` for amb's late losers); "
+"static_phase_eq_plain ties it to the plain machines, wlf_phased_only_primary / wlf_eq_reference / wlf_timeline_reference state with_latest_from against a declarative reference "
+"(others-before-primary order, simultaneous events, emit-on-subscribe). Cases with emit-on-subscribe sources are replayed through the phased machines (all unsubscribes of such a "
+"case are compared by (source, time) only: inside the loop they lag until the loop's composite reaches the observer); for all-cold cases the event ORDER is additionally derived in "
+"Lean from the timelines (`tlEvents`) and compared with the recorded one. The phased live list is in subscription order (= container order except for with_latest_from). Not "
+"modelled: futures. Threads are C43.")
 
 OPS = ["zip", "combine_latest", "with_latest_from", "fork_join", "amb", "amb2"]
 
@@ -64,10 +75,50 @@ def cases(rng, tier):
                 c["srcs"] = [{"mode": "cold", "msgs": cc.gen_timeline(rng, j, maxn=4, span=15)} for j in range(k)]
                 c["dispose"] = None
             elif r < 0.5:
-                # oracle-only: every source emits inside subscribe (of(1,2,3).pipe(with_latest_from(of(10))))
+                # every source emits inside subscribe (of(1,2,3).pipe(with_latest_from(of(10))))
                 c["srcs"] = [{"mode": "sync", "msgs": cc.gen_timeline(rng, j, maxn=3, span=5, p_complete=0.85, p_error=0.05)} for j in range(k)]
                 c["dispose"] = None
+        elif op != "amb2" and rng.random() < 0.12:
+            # emit-on-subscribe sources inside the subscribe loop of any static operator (replayed through the PHASED machine)
+            for j in range(k):
+                if rng.random() < 0.6:
+                    c["srcs"][j] = {"mode": "sync", "msgs": cc.gen_timeline(rng, j, maxn=3, span=5, p_complete=0.7, p_error=0.12)}
+        elif op != "amb2" and rng.random() < 0.2:
+            # all cold, few distinct instants: the event ORDER is derived in Lean from the timelines (tlEvents) and compared too
+            c["srcs"] = [{"mode": "cold", "msgs": cc.gen_timeline(rng, j, maxn=4, span=15)} for j in range(k)]
+            c["dispose"] = None
         yield c
+
+
+def is_phased(case):
+    return any(sp_["mode"] == "sync" for sp_ in case["srcs"])
+
+
+def has_timelines(case):
+    return case["op"] != "amb2" and case.get("dispose") is None and all(sp_["mode"] == "cold" for sp_ in case["srcs"])
+
+
+def sub_order(case):
+    n = case["n"]
+    if case["op"] == "with_latest_from":
+        return list(range(1, n)) + [0]
+    if case["op"] == "amb":
+        return list(range(n - 1, -1, -1))
+    return list(range(n))
+
+
+def split_case(case, log):
+    if is_phased(case):
+        # the subscribe loop is part of the trace: every subscription is a `tick` of the phased machine; every unsubscribe is
+        # compared by (source, time) only (inside the loop they lag: a source still inside its own subscribe cannot be closed,
+        # and the loop's composite reaches a stopped observer only when the loop is over)
+        log2 = []
+        for e in log:
+            if e[0] == "sub":
+                log2.append(["tick", e[2]])
+            log2.append(e)
+        return cc.split_log(log2, tuple(range(case["n"])))
+    return cc.split_log(log)
 
 
 def _run_impl(case):
@@ -103,27 +154,37 @@ _run = cc.memo(_run_impl)
 
 def impl(case):
     log = _run(case)
-    sp = cc.split_log(log)
+    sp = split_case(case, log)
     return {"split": sp, "log": log}
 
 
 def model_request(case):
-    if any(sp_["mode"] == "sync" for sp_ in case["srcs"]):
-        return None     # the static n-ary machines subscribe all sources before the first notification: oracle-only
-    sp = cc.split_log(_run(case))
+    sp = split_case(case, _run(case))
     op = case["op"]
-    if op == "amb" and case["n"] % 2 == 0:
+    if op == "amb" and case["n"] % 2 == 0 and not is_phased(case) and not has_timelines(case):
         op = "amb_nested"     # the nested composition of binary ambs (proved equal to the flattened machine: C13.amb_nested_eq_flat)
-    return {"op": op, "n": case["n"], "events": [e for _, e in sp["events"]]}
+    r = {"op": op, "n": case["n"], "events": [e for _, e in sp["events"]]}
+    if is_phased(case):
+        r["phased"] = True
+    if has_timelines(case):
+        r["timelines"] = [[sid, [[cc.SUBSCRIBE_AT + m[0], m[1:] if m[1] != "N" else ["N", m[2]]] for m in case["srcs"][sid]["msgs"]]]
+                          for sid in sub_order(case)]
+    return r
 
 
 def canon_impl(case, out):
-    return cc.canon_real(out["split"])
+    r = cc.canon_real(out["split"])
+    if has_timelines(case):
+        r["tl_events"] = out["split"]["events"]
+    return r
 
 
 def canon_model(case, resp):
-    sp = cc.split_log(_run(case))
-    return cc.canon_model_resp(sp["events"], resp)
+    sp = split_case(case, _run(case))
+    r = cc.canon_model_resp(sp["events"], resp, tuple(range(case["n"])) if is_phased(case) else ())
+    if has_timelines(case) and isinstance(resp, dict) and "tl_events" in resp:
+        r["tl_events"] = resp["tl_events"]
+    return r
 
 
 # --------------------------------------------------------------------------------------------- oracle
@@ -341,6 +402,10 @@ def bucket(case, out):
     yield "dispose=" + str(case.get("dispose") is not None)
     if case["op"] == "with_latest_from" and wlf_reference(case) is not None:
         yield "wlf_timeline_oracle=" + case["srcs"][0]["mode"]
+    if is_phased(case):
+        yield "phased_subscribe_loop"
+    if has_timelines(case):
+        yield "event_order_from_timelines"
     for s in case["srcs"]:
         yield "src=" + s["mode"] + ("-rude" if s.get("rude") else "")
 
